@@ -209,8 +209,26 @@ def main():
     free = list(tdirs)
     lock = threading.Lock()
     results = []
+    # memory-aware admission: the sum of the expected peaks of the running CBMC processes stays
+    # below the budget (62 GB machine, no swap: 12 heavy harnesses at once were killed by memory
+    # pressure and came back "no verdict")
+    budget = [float(os.environ.get("VERIF_MEM_BUDGET_GB", "44"))]
+    cond = threading.Condition()
 
     def work(h):
+        need = min(h.mem_need, float(os.environ.get("VERIF_MEM_BUDGET_GB", "44")))
+        with cond:
+            while budget[0] < need:
+                cond.wait()
+            budget[0] -= need
+        try:
+            return work2(h)
+        finally:
+            with cond:
+                budget[0] += need
+                cond.notify_all()
+
+    def work2(h):
         with lock:
             td = free.pop()
         try:
